@@ -284,15 +284,21 @@ pub fn pm1_impl(n: &Uint, b1: u64, b2: f64, verbosity: Verbosity) -> Option<(Vec
             // process exponent block
             if stop || 1 << expblock.leading_zeros() <= pow {
                 if !largeblocks {
+                    #[cfg(yamaquasi_verif)]
+                    crate::verif::ev(|| format!("\"op\":\"pm1_blk\",\"kind\":\"w64\",\"v\":\"{}\"", expblock));
                     g = exp_modn(&zn, &g, expblock);
                     gpows.push(zn.sub(&g, &zn.one()));
                     expblock = 1;
                 } else {
+                    #[cfg(yamaquasi_verif)]
+                    crate::verif::ev(|| format!("\"op\":\"pm1_blk\",\"kind\":\"merge\",\"v\":\"{}\"", expblock));
                     expblock_lg *= U1024::from_digit(expblock);
                     expblock = 1;
                 }
             }
             if stop || expblock_lg.bits() > 1024 - 32 {
+                #[cfg(yamaquasi_verif)]
+                crate::verif::ev(|| format!("\"op\":\"pm1_blk\",\"kind\":\"w1024\",\"v\":\"{}\"", expblock_lg));
                 g = exp_modn_large(&zn, &g, &expblock_lg);
                 gpows.push(zn.sub(&g, &zn.one()));
                 expblock_lg = U1024::ONE;
@@ -907,4 +913,15 @@ fn test_exp_modn() {
         zn.one(),
         exp_modn_large(&zn, &zn.from_int(two), &U1024::cast_from(p480 - Uint::ONE))
     );
+}
+
+/// Verification accessor for the private blocks of `PM1Base` (cfg(yamaquasi_verif) only).
+#[cfg(yamaquasi_verif)]
+pub mod vhook_smooth {
+    use super::*;
+
+    /// (packed prime power blocks, large primes) of the 64-bit P-1 base, in order.
+    pub fn pm1base_blocks(b: &PM1Base) -> (Vec<u32>, Vec<u32>) {
+        (b.factors.to_vec(), b.larges.to_vec())
+    }
 }
